@@ -217,7 +217,16 @@ class Gen:
             self.tag("YS"); self.w(self.r.choice(TYPES)); self.w("("); self.w(self.r.choice(["1", "20", "255"])); self.w(")")
         elif c in (5, 6):
             self.count("type:ref")
-            self.tag("YR"); self.w(self.r.choice(["refTo", "listOf"])); self.w(self.r.choice(TYPES))
+            self.tag("YR"); self.w(self.r.choice(["refTo", "listOf"]))
+            if self.r.chance(1, 4):
+                self.count("type:ref-options")
+                self.tag("O"); self.w("["); self.w(self.r.choice(NAMES))
+                for _ in range(self.r.below(3)):
+                    self.tag(","); self.w(","); self.w(self.r.choice(NAMES))
+                self.tag("."); self.w("]")
+            else:
+                self.tag("-")
+            self.w(self.r.choice(TYPES))
             if self.r.chance(1, 3):
                 self.tag("+"); self.w("inverse"); self.w(self.r.choice(NAMES))
             else:
